@@ -169,7 +169,20 @@ func (op *Operation) popClosestUnqueried() types.AddrMaybeId {
 	return ret
 }
 
+// Discards the closest unqueried candidates while their address has already been queried. The
+// frontier is keyed by ID as well as address, so an address reported under several IDs sits in it
+// several times, and only the first of those may be queried.
+func (op *Operation) dropQueriedCandidates() {
+	for op.unqueried.Len() != 0 {
+		if _, ok := op.queried[addrString(op.closestUnqueried().Addr.String())]; !ok {
+			return
+		}
+		op.popClosestUnqueried()
+	}
+}
+
 func (op *Operation) haveQuery() bool {
+	op.dropQueriedCandidates()
 	if op.unqueried.Len() == 0 {
 		return false
 	}
